@@ -64,6 +64,48 @@ pub fn run_axioms_permuted(ctx: &mut Ctx) {
     }
 }
 
+/// strings whose code-point order is not their UTF-16, case-folded or length order
+pub fn run_string_order(ctx: &mut Ctx) {
+    let name = "C07.string_order";
+    match check_string_order() {
+        Err(e) => ctx.violation(name, &json!({"universe": "strings"}), &e),
+        Ok((evals, errs)) => {
+            let n = ORDER_STRINGS.len();
+            let st = ctx.stats.entry(name.to_string()).or_default();
+            st.evaluations += evals as u64;
+            for i in 0..n * n {
+                st.nontrivial_hashes.insert(i as u64);
+            }
+            st.exhaustive = Some(format!("all {}^2 pairs under <, and three sorts, of {} strings from the empty string to U+10FFFF", n, n));
+            st.samples.push((0, json!({"check": name, "case": {"strings": n}, "observed": "< matrix and positions after (sort_by ..), --sort-by, --sort-by DESC"})));
+            if !errs.is_empty() {
+                ctx.violation(name, &json!({"universe": "strings"}), &errs.join(" | "));
+            }
+        }
+    }
+}
+
+pub struct C07StringOrder;
+impl Check for C07StringOrder {
+    type Case = CaseAx;
+    fn name(&self) -> &'static str {
+        "C07.string_order"
+    }
+    fn cases(&self, _t: Tier) -> u64 {
+        0
+    }
+    fn strategy(&self, _t: Tier) -> BoxedStrategy<CaseAx> {
+        Just(CaseAx { universe: "strings".into() }).boxed()
+    }
+    fn check(&self, _c: &CaseAx) -> CaseResult {
+        match check_string_order() {
+            Err(e) => CaseResult::Fail(e),
+            Ok((_, errs)) if errs.is_empty() => CaseResult::Pass(Info::new(true)),
+            Ok((_, errs)) => CaseResult::Fail(errs.join(" | ")),
+        }
+    }
+}
+
 pub struct C07AxiomsPermuted;
 impl Check for C07AxiomsPermuted {
     type Case = CaseAx;
@@ -559,17 +601,18 @@ impl Check for C07NasSort {
 }
 
 pub fn run_all(ctx: &mut Ctx) {
-    ctx.rule = "C07.axioms: the six comparison matrices over the whole universe are obtained from jawk and all pairs/triples are checked (exhaustive). C07.axioms_permuted: 20 objects that differ only in member order or sort between such objects: < <= > >= must be dual, complementary, total and transitive, and (sort_by ..) / --sort-by must be non-decreasing under that <= for three arrival orders (no use of =). C07.sortby: 0..40 records with 3 key fields from per-case pools of 1..5 universe values (or absent) x 1..3 --sort-by keys x ASC/DESC/omitted in random letter case and both syntaxes; non-trivial = at least two rows tie on the full key, two differ, and for multi-key sorts a tie on key 1 is broken by key 2. C07.functions: the six sort functions and their aliases on up to 160 elements/members; non-trivial = >= 3 elements with a tie and a difference. distinct = distinct cases by hash".into();
+    ctx.rule = "C07.axioms: the six comparison matrices over the whole universe are obtained from jawk and all pairs/triples are checked (exhaustive). C07.axioms_permuted: 20 objects that differ only in member order or sort between such objects: < <= > >= must be dual, complementary, total and transitive, and (sort_by ..) / --sort-by must be non-decreasing under that <= for three arrival orders (no use of =). C07.string_order: 22 strings from the empty string to U+10FFFF (among them characters beyond U+FFFF next to U+E000..U+FFFF, upper and lower case, prefixes): < and three sorts must follow the code points; only booleans and positions are read back. C07.sortby: 0..40 records with 3 key fields from per-case pools of 1..5 universe values (or absent) x 1..3 --sort-by keys x ASC/DESC/omitted in random letter case and both syntaxes; non-trivial = at least two rows tie on the full key, two differ, and for multi-key sorts a tie on key 1 is broken by key 2. C07.functions: the six sort functions and their aliases on up to 160 elements/members; non-trivial = >= 3 elements with a tie and a difference. distinct = distinct cases by hash".into();
     ctx.assumptions = vec![
         "the order between two different objects is unspecified: jawk's own < matrix is used for it after it passed totality/antisymmetry/transitivity over the whole universe".into(),
         "universe numbers are < 2^53 in magnitude or non-integral, no -0, no member-order permutations (the property's quantifier)".into(),
     ];
     run_axioms(ctx);
     run_axioms_permuted(ctx);
+    run_string_order(ctx);
     C07SortBy.run(ctx);
     C07SortFn.run(ctx);
 }
 
 pub fn checks() -> Vec<Box<dyn DynCheck>> {
-    vec![Box::new(C07Axioms), Box::new(C07AxiomsPermuted), Box::new(C07SortBy), Box::new(C07SortFn)]
+    vec![Box::new(C07Axioms), Box::new(C07AxiomsPermuted), Box::new(C07StringOrder), Box::new(C07SortBy), Box::new(C07SortFn)]
 }
